@@ -45,6 +45,15 @@ def spelling(draw, segs: list[str], root_name: str = "capsule", hostile=True):
     parts: list[str] = []
     for s in segs:
         mode = draw(st.integers(0, 5))
+        if not s.isascii() and draw(st.integers(0, 2)) == 0:
+            # another Unicode normalisation form of the same visible name (a different name on disk)
+            import unicodedata
+
+            alt = unicodedata.normalize(draw(st.sampled_from(["NFD", "NFC", "NFKC"])), s)
+            if alt != s:
+                parts.append(alt if draw(st.booleans()) else rfc_encode(alt))
+                labels.append("unicode-form")
+                continue
         if mode <= 1 and literal_ok(s):
             parts.append(s)
         elif mode <= 3:
